@@ -1,6 +1,7 @@
 import Driver.Proto
 import Driver.Ledger
 import Driver.LedgerOracle
+import Driver.Costs
 open Driver
 
 def runLedger (c : Case) : Res :=
@@ -19,6 +20,7 @@ def runLedger (c : Case) : Res :=
 def dispatch (c : Case) : Res :=
   match c.family with
   | "ledger" => runLedger c
+  | "costs" => runCosts c
   | f => { verdict := "BADCASE", msg := s!"unknown family {f}" }
 
 def main : IO Unit := do
